@@ -41,6 +41,7 @@ type Op struct {
 	Kind   string `json:"kind"` // use tx wtx reset close
 	Text   int    `json:"text,omitempty"`
 	Exec   bool   `json:"exec,omitempty"` // through ExecContext instead of QueryContext
+	Row    bool   `json:"row,omitempty"`  // through QueryRowContext (Row().Scan) instead of QueryContext
 	Arg    int    `json:"arg,omitempty"`
 	Inner  []Op   `json:"inner,omitempty"`  // tx: uses inside the transaction
 	Commit bool   `json:"commit,omitempty"` // tx/wtx: commit (else rollback)
@@ -76,6 +77,8 @@ func genUse(r *core.Rand) Op {
 	op := Op{Kind: "use", Text: r.Intn(len(texts)), Exec: r.Chance(30), Arg: r.Intn(4)}
 	if op.Exec {
 		op.Text = r.Intn(3) // the aggregate text always returns a row
+	} else if r.Chance(20) {
+		op.Row, op.Text = true, 3 // the aggregate text returns exactly one row
 	}
 	return op
 }
@@ -276,6 +279,20 @@ func (rs *runState) use(h *gorm.DB, t int, op Op, inTx bool) error {
 		r.Want = "exec-ok"
 		if err == nil {
 			r.Result = "exec-ok"
+		}
+	} else if op.Row {
+		r.Want = rs.expect[fmt.Sprintf("%d|%d", op.Text, op.Arg)]
+		var n fam.Note
+		func() {
+			defer func() {
+				if pv := recover(); pv != nil {
+					err = fmt.Errorf("panic in Row().Scan: %v", pv)
+				}
+			}()
+			err = h.Raw(texts[op.Text], op.Arg).Row().Scan(&n.ID, &n.Body, &n.Rank)
+		}()
+		if err == nil {
+			r.Result = renderNotes([]fam.Note{n})
 		}
 	} else {
 		r.Want = rs.expect[fmt.Sprintf("%d|%d", op.Text, op.Arg)]
